@@ -1,6 +1,7 @@
 import OapiVerif.Model.TypeMap
 import OapiVerif.Gen.C08
 import OapiVerif.Proofs.SchemaOrder
+import OapiVerif.Proofs.FieldTags
 /-!
 C08 — Go types follow the documented schema mapping.
 
@@ -95,3 +96,54 @@ theorem C08_without_x_order_by_name (m : List Entry) (h : ∀ e ∈ m, e.order =
   simpa [ha', hb'] using hab
 
 end OapiVerif.SchemaOrder
+
+namespace OapiVerif.FieldTags
+
+/-- `x-oapi-codegen-extra-tags` **changes exactly its own keys**: a tag key the extension does not name has the value it
+has without the extension; a key it names has the extension's value. For every member, every option, every tag map. -/
+theorem C08_extra_tags_change_exactly_their_keys (o : Opts) (p : P) (hnd : (p.extra.map (·.1)).Nodup) (k : Str) :
+    (k ∉ p.extra.map (·.1) → lookup (fieldTags o p) k = lookup (fieldTags o { p with extra := [] }) k) ∧
+    (∀ v, (k, v) ∈ p.extra → lookup (fieldTags o p) k = some v) := by
+  constructor
+  · intro hk
+    show lookup (p.extra.foldl _ (baseTags o p)) k = lookup (baseTags o p) k
+    exact lookup_foldl_other p.extra k hk _
+  · intro v hv
+    exact lookup_foldl_mem p.extra hnd k v hv _
+
+/-- Every key stands once in the tag, in ascending order (a repeated key is an error of `go vet` and the second one is
+ignored by `reflect`). -/
+theorem C08_tag_keys_ascending (o : Opts) (p : P) :
+    (fieldTags o p).Pairwise fun a b => Responses.lexLt a.1 b.1 = true := by
+  have hb : Asc (baseTags o p) := by
+    unfold baseTags
+    simp only
+    have h0 : Asc ([] : List (Str × Str)) := by simp [Asc]
+    split <;> split <;> first | exact asc_insertKV _ _ _ (asc_insertKV _ _ _ (asc_insertKV _ _ _ h0)) | exact asc_insertKV _ _ _ (asc_insertKV _ _ _ h0) | exact asc_insertKV _ _ _ h0
+  exact asc_foldl p.extra _ hb
+
+/-- The JSON tag is the property name, with `,omitempty` exactly when the member is omitted when empty — unless
+`x-go-json-ignore: true` (then `-`) or an extra tag named `json` say otherwise. -/
+theorem C08_json_tag_is_property_name (o : Opts) (p : P) (hi : p.jsonIgnore ≠ some true) (he : w "json" ∉ p.extra.map (·.1)) :
+    lookup (fieldTags o p) (w "json") = some (if omitEmpty o p then p.jsonName ++ w ",omitempty" else p.jsonName) := by
+  show lookup (p.extra.foldl _ (baseTags o p)) (w "json") = _
+  rw [lookup_foldl_other p.extra _ he]
+  unfold baseTags
+  simp only [hi, if_false]
+  split
+  · rw [lookup_insertKV, if_neg (by decide), lookup_insertKV, if_pos rfl]
+  · rw [lookup_insertKV, if_pos rfl]
+
+/-- `omitempty` with the default options and no `x-omitempty`: exactly for non-nullable members that are optional,
+read-only or write-only (the documented rule; the generator's table `Gen/C08.lean` measures the same on the real code). -/
+theorem C08_omitempty_rule (p : P) (hx : p.xOmitEmpty = none) :
+    omitEmpty ⟨false, false⟩ p = (!p.nullable && (!p.required || p.readOnly || p.writeOnly)) := by
+  unfold omitEmpty shouldOmit
+  rw [hx]
+  cases p.nullable <;> cases p.required <;> cases p.readOnly <;> cases p.writeOnly <;> rfl
+
+/-- non-vacuity: an optional member of a form body with two extra tags, one of which replaces the form tag -/
+example : render (fieldTags ⟨false, false⟩ ⟨w "id", false, false, false, false, true, none, none, [(w "validate", w "required"), (w "form", w "ID")]⟩) =
+    w "form:\"ID\" json:\"id,omitempty\" validate:\"required\"" := by decide
+
+end OapiVerif.FieldTags
